@@ -102,6 +102,10 @@ func c34GenTiny(r *Rng) string {
 func (c34) Gen(r *Rng, tier string, n int) []string {
 	cases := make([]string, 0, n)
 	for len(cases) < n {
+		if r.Chance(2) {
+			cases = append(cases, c34GenSrv(r))
+			continue
+		}
 		if r.Chance(35) {
 			cases = append(cases, c34GenTiny(r))
 			continue
@@ -269,6 +273,9 @@ func c34SpecRuleMatches(rule storage.CORSRule, origin, method string, preflight 
 }
 
 func (c34) Run(in string, scratch string) Result {
+	if strings.HasPrefix(in, "SRV ") {
+		return c34RunSrv(in, scratch)
+	}
 	f := strings.Split(in, " ")
 	raw := c34ParseRules(f[0])
 	method, origin, acrm, acrh := untokBytes(f[1]), untokBytes(f[2]), untokBytes(f[3]), untokBytes(f[4])
